@@ -357,4 +357,26 @@ ExecCoproc(x, i) ==
      ELSE IF (~viahyp) /\ acc = 2 THEN Unpred(x)
      ELSE IF s.cfg.sec /\ s.cfg.virt /\ ~IsSecure(s) THEN Unpred(NotImpl(x, "coproc-hcptr"))
      ELSE NotImpl(x, IF i.memop THEN "coproc-mem" ELSE "coproc")
+-----------------------------------------------------------------------------
+(* exclusive loads and stores (A8.8.75-78, .212-215; B2.4.6 SetExclusiveMonitors / ExclusiveMonitorsPass).         *)
+(* Named deviation `MonitorStub`: the emulator's local and global monitors are stubs that never report an          *)
+(* exclusive access as passed, so a store-exclusive performs its alignment and translation checks, stores nothing  *)
+(* and returns status 1.  (Architecturally a store-exclusive may always fail; what is not modelled is success.)     *)
+ExecLDREX(x, i) ==
+  LET s == x.s  addr == Add(Rget(s, i.n), i.imm) IN
+  IF i.size = 8 /\ Slice(addr, 2, 0) # 0 THEN AlignmentFault(x, addr, FALSE)
+  ELSE LET t0 == Translate(x, addr, Priv(s), FALSE, i.size, TRUE) IN          \* SetExclusiveMonitors
+       IF ~Ok(t0.x) THEN t0.x
+       ELSE LET r == MemARead(t0.x, addr, i.size, Priv(s), TRUE) IN
+            IF ~Ok(r.x) THEN r.x
+            ELSE IF i.size = 8
+                 THEN LET lo == BytesToWord(SubSeq(r.v, 1, 4))  hi == BytesToWord(SubSeq(r.v, 5, 8))
+                      IN IF PE(s.cpsr) = 1 THEN RsetX(RsetX(r.x, i.t, hi), i.t2, lo)
+                         ELSE RsetX(RsetX(r.x, i.t, lo), i.t2, hi)
+                 ELSE RsetX(r.x, i.t, BytesToWord(r.v))
+ExecSTREX(x, i) ==
+  LET s == x.s  addr == Add(Rget(s, i.n), i.imm) IN
+  IF ~IsAligned(addr, i.size) THEN AlignmentFault(x, addr, TRUE)               \* ExclusiveMonitorsPass
+  ELSE LET t0 == Translate(x, addr, Priv(s), TRUE, i.size, TRUE) IN
+       IF ~Ok(t0.x) THEN t0.x ELSE RsetX(t0.x, i.d, <<0, 1>>)
 =============================================================================
